@@ -77,7 +77,7 @@ def run_workers(cmds, results, timeout=3600, env=None, cwd=None, max_par=NCPU):
         t0 = time.time()
         try:
             p = subprocess.run(argv, stdout=subprocess.PIPE, stderr=subprocess.PIPE, timeout=timeout, env=env, cwd=cwd)
-            return label, p.returncode, p.stdout.decode(errors="replace"), p.stderr.decode(errors="replace")[-4000:], time.time() - t0
+            return label, p.returncode, p.stdout.decode(errors="replace"), p.stderr.decode(errors="replace")[-60000:], time.time() - t0
         except subprocess.TimeoutExpired as e:
             return label, -999, (e.stdout or b"").decode(errors="replace"), "TIMEOUT", time.time() - t0
     with ThreadPoolExecutor(max_workers=max_par) as ex:
